@@ -2,7 +2,7 @@
    Evaluated either by vm_compute inside coqc or by the OCaml program extracted from this file. *)
 From Coq Require Import ZArith List Bool String Ascii.
 From Coq.Strings Require Import Byte.
-From CP Require Import Core.Bytes Core.Result Core.Show Prim.Int Prim.Mpint Prim.Timestamp Base.Enum Base.Array Frame.LVFrame Frame.Units Frame.Entry Reader.Reader Spec.PL Spec.TlsSpec Spec.Ja3 Tls.Ja3Model Spec.KeyTag Spec.DnsSpec Dns.KeyTag Spec.SshSpec Spec.SshMsgSpec Ssh.Record Spec.OppSpec Opp.Rdp Text.Field Text.Cookie Frame.Ssl2 Frame.SshPacket.
+From CP Require Import Core.Bytes Core.Result Core.Show Prim.Int Prim.Mpint Prim.Timestamp Base.Enum Base.Array Frame.LVFrame Frame.Units Frame.Entry Reader.Reader Spec.PL Spec.TlsSpec Spec.Ja3 Tls.Ja3Model Spec.KeyTag Spec.DnsSpec Dns.KeyTag Spec.SshSpec Spec.SshMsgSpec Ssh.Record Spec.OppSpec Opp.Rdp Text.Field Text.Cookie Ssh.Software Frame.Ssl2 Frame.SshPacket.
 From CPGen Require Import Tables.
 Import ListNotations.
 Local Open Scope string_scope.
@@ -262,6 +262,11 @@ Definition text_cmd (ws : list string) : option string :=
   | ["cssh"; h] => Some ("OK " ++ hex_of_bytes (ssh_compose (hex_or_empty h)))
   | ["cssl2"; t; h] => Some (show_result hex_of_bytes (ssl2_compose (z_of_string t) (hex_or_empty h)))
   | ["sts"; h] => Some (show_result show_sts (sts_parse (hex_or_empty h)))
+  | ["swver"; vendor; sep; h] =>
+      match bytes_of_hex sep with
+      | [c] => Some (show_result (fun v => match v with Some w => hex_of_bytes w | None => "-" end) (sw_parse (bytes_of_hex vendor) c (hex_or_empty h)))
+      | _ => Some "BADCMD"
+      end
   | ["cookiepair"; h] =>
       Some (show_result (fun r => dash_hex (fst (fst r)) ++ " " ++ dash_hex (snd (fst r)) ++ " " ++ dash_hex (snd r)) (cookie_pair (hex_or_empty h)))
   | ["hline"; strict; h] =>
